@@ -40,14 +40,19 @@ OLD = 978307200  # 2001-01-01: mtime given to every base file before the write
 # ---------------------------------------------------------------------------
 # base fields
 # ---------------------------------------------------------------------------
-def gathered_field():
-    f = cfdm.Field(properties={"standard_name": "air_temperature", "units": "K"})
+def gathered_field(variant=0):
+    """A field compressed by gathering.  variant 0: list [1, 4, 5], the list variable has no
+    netCDF variable name; variant 1: another list variable, named 'landpoint'."""
+    f = cfdm.Field(properties={"standard_name": "air_temperature" if not variant else "surface_temperature",
+                               "units": "K"})
     t = f.set_construct(cfdm.DomainAxis(2))
     y = f.set_construct(cfdm.DomainAxis(3))
     x = f.set_construct(cfdm.DomainAxis(2))
-    lst = cfdm.List(data=cfdm.Data(np.array([1, 4, 5], dtype="int32")))
+    lst = cfdm.List(data=cfdm.Data(np.array([1, 4, 5] if not variant else [0, 2, 3], dtype="int32")))
+    if variant:
+        lst.nc_set_variable("landpoint")
     arr = cfdm.GatheredArray(
-        compressed_array=cfdm.Data(np.arange(6.0).reshape(2, 3)),
+        compressed_array=cfdm.Data(np.arange(6.0).reshape(2, 3) + 10.0 * variant),
         shape=(2, 3, 2), compressed_dimensions={1: (1, 2)}, list_variable=lst)
     f.set_data(cfdm.Data(arr), axes=[t, y, x])
     dc = cfdm.DimensionCoordinate(properties={"standard_name": "time", "units": "days since 2000-01-01"},
@@ -70,6 +75,8 @@ def base_field(kind):
         return cfdm.example_field(3).compress("indexed")
     if kind == "gath":
         return gathered_field()
+    if kind == "gath2":
+        return gathered_field(1)
     raise ValueError(kind)
 
 
@@ -188,22 +195,32 @@ def jv(v):
 
 
 def nc_of(x):
+    """Every netCDF name the object carries: all nc_get_*(default) getters it has (variable,
+    dimension, sample dimension, external, node coordinate variable, geometry / mesh container
+    variable, ...), every *_groups() and the other argument-less nc_* views."""
     out = {}
-    for name in ("nc_get_variable", "nc_get_dimension", "nc_get_sample_dimension",
-                 "nc_get_external", "nc_get_node_coordinate_variable"):
+    for name in sorted(n for n in dir(x) if n.startswith("nc_get_")):
         m = getattr(x, name, None)
-        if m is not None:
+        if callable(m):
             try:
                 out[name] = jv(m(None))
+            except TypeError:
+                try:
+                    out[name] = jv(m())
+                except Exception:
+                    pass
             except Exception:
                 pass
-    for name in ("nc_global_attributes", "nc_variable_groups", "nc_dimension_groups",
-                 "nc_is_unlimited", "nc_group_attributes", "nc_hdf5_chunksizes",
-                 "nc_sample_dimension_groups"):
+    views = {"nc_global_attributes", "nc_is_unlimited", "nc_group_attributes", "nc_hdf5_chunksizes",
+             "nc_variable_node_coordinate_groups"}
+    views.update(n for n in dir(x) if n.startswith("nc_") and n.endswith("_groups")
+                 and not n.startswith(("nc_set", "nc_clear")))
+    for name in sorted(views):
         m = getattr(x, name, None)
-        if m is not None:
+        if callable(m):
             try:
-                out[name] = jv(m()) if not isinstance(m(), dict) else {k: jv(v) for k, v in m().items()}
+                v = m()
+                out[name] = jv(v) if not isinstance(v, dict) else {k: jv(w) for k, w in v.items()}
             except Exception:
                 pass
     return out
@@ -237,6 +254,16 @@ def meta_data(d):
             v = None
         if v is not None:
             out[nm] = meta_var(v)
+    for nm in ("get_tie_point_indices", "get_interpolation_parameters", "get_dependent_tie_points"):
+        try:
+            vs = getattr(d, nm)({})
+        except Exception:
+            vs = {}
+        if vs:
+            out[nm] = {str(k): (meta_var(v) if not isinstance(v, cfdm.Data) else meta_data(v)) for k, v in sorted(vs.items())}
+    src = d.source(None)
+    if src is not None and src is not d:
+        out["src_nc"] = nc_of(src)
     return out
 
 
@@ -651,7 +678,9 @@ def apply_op(regs, o):
             raise Skip("no such component")
         x = comps[o.get("j", 0) % len(comps)]
         val = f"asym{o.get('val', 0)}"
-        if o.get("which") == "ncvar" and hasattr(x, "nc_set_variable"):
+        if o.get("which") == "ncvar_del" and hasattr(x, "nc_del_variable"):
+            x.nc_del_variable(None)
+        elif o.get("which") == "ncvar" and hasattr(x, "nc_set_variable"):
             x.nc_set_variable("nc_" + val)
         elif hasattr(x, "set_property"):
             x.set_property(o.get("name", "long_name"), val)
@@ -866,6 +895,11 @@ def spell_of(base, slink, key, via):
         return os.path.join(slink, "data", fn)
     if via == "alias_scratch":
         return os.path.join(slink, "alias", fn)
+    if via in ("envvar", "envvar-braces", "tilde"):
+        # a name that cfdm must expand (os.path.expandvars / expanduser): the variable and HOME point
+        # at the data directory of this layout (run_case sets them)
+        var = "VERIF_C10_TWIN" if os.path.basename(base) == "twin" else "VERIF_C10_DIR"
+        return {"envvar": f"${var}/{fn}", "envvar-braces": "${" + var + "}/" + fn, "tilde": f"~/{fn}"}[via]
     if via == "deep":  # '..' after a link to a deeper directory: lexically base/fn, physically base/data/fn
         return os.path.join(base, "alias2", "..", fn)
     raise ValueError(via)
@@ -910,6 +944,26 @@ def geo_props(f, intern):
     return out
 
 
+OTHER_KINDS = ("list", "count", "index", "bounds", "interior_ring")
+
+
+def other_props(f, intern):
+    """The list / count / index / bounds / interior ring variables held by a construct: kind
+    and the property list of each, the netCDF variable name included (key 'nc')."""
+    out = []
+    for kind in OTHER_KINDS:
+        try:
+            comps = components_of(f, kind)
+        except Exception:  # noqa
+            comps = []
+        for x in comps:
+            row = [[intern("p:nc"), intern("v:" + repr(x.nc_get_variable(None)))]] if hasattr(x, "nc_get_variable") else []
+            if hasattr(x, "properties"):
+                row += [[intern("p:" + str(k)), intern("v:" + repr(jv(v)))] for k, v in x.properties().items()]
+            out.append([kind, sorted(row)])
+    return out
+
+
 def run_case(case, root):
     root = os.path.realpath(root)
     d = os.path.join(root, f"c{case['id']}")
@@ -923,6 +977,9 @@ def run_case(case, root):
         tbase = os.path.join(d, "twin")
         make_layout(d, slink)
         make_layout(tbase, tslink)
+        os.environ["VERIF_C10_DIR"] = os.path.join(d, "data")
+        os.environ["VERIF_C10_TWIN"] = os.path.join(tbase, "data")
+        os.environ["HOME"] = os.path.join(d, "data")
         paths = {k: os.path.join(d, rel) for k, rel in KEYFILE.items()}
         twin = {k: os.path.join(tbase, rel) for k, rel in KEYFILE.items()}
         for k, i in KEY_ID.items():
@@ -989,14 +1046,24 @@ def run_case(case, root):
         key_of_real = {os.path.realpath(p): k for k, p in paths.items() if k != "LX"}
 
         def describe(p):
-            ab = os.path.abspath(p)
-            return {"name": names.get(ab), "path": names.path(ab), "raw": p,
-                    "real_key": key_of_real.get(os.path.realpath(p), "?"),
+            pe = os.path.expanduser(os.path.expandvars(p))
+            ab = os.path.abspath(pe)
+            # the name as given, for the model: a variable / home token followed by literal
+            # components, or the literal components of the absolute name
+            if p.startswith("$VERIF_C10_DIR/") or p.startswith("${VERIF_C10_DIR}/"):
+                given = [["var", 1]] + [["lit", c] for c in names.path("/" + p.split("/", 1)[1])]
+            elif p.startswith("~/"):
+                given = [["home"]] + [["lit", c] for c in names.path("/" + p[2:])]
+            else:
+                given = [["lit", c] for c in names.path(ab)]
+            return {"name": names.get(ab), "path": names.path(ab), "raw": p, "given": given,
+                    "real_key": key_of_real.get(os.path.realpath(pe), "?"),
                     "lexical_key": key_of_real.get(os.path.realpath(ab), "?"),
-                    "modelable": os.path.realpath(p) == os.path.realpath(ab)}
+                    "modelable": os.path.realpath(pe) == os.path.realpath(ab)}
 
         out["target"] = describe(target)
         out["ext"] = describe(ext_path) if ext else None
+        out["env"] = {"vars": [[1, names.path(os.path.join(d, "data"))]], "home": names.path(os.path.join(d, "data"))}
         extra = dict(HARMLESS_KW[w.get("harmless", 0) % len(HARMLESS_KW)])
         injected = None
         if w.get("fault"):
@@ -1021,6 +1088,7 @@ def run_case(case, root):
             return interned.setdefault(s, len(interned) + 1)
 
         geo_before = [geo_props(regs[i], intern) for i in sel]
+        oth_before = [other_props(regs[i], intern) for i in sel]
         meta_before = [meta_of(f, names) for f in regs]
         # control: the same constructs and options written to a fresh place,
         # to learn whether this write fails on its own account
@@ -1086,6 +1154,7 @@ def run_case(case, root):
         meta_after = [meta_of(f, names) for f in regs]
         geo_after = [geo_props(regs[i], intern) for i in sel]
         out["geo"] = {"before": geo_before, "after": geo_after}
+        out["others"] = {"before": oth_before, "after": [other_props(regs[i], intern) for i in sel]}
         changed = []
         for i, (a, b) in enumerate(zip(meta_before, meta_after)):
             if a != b:
